@@ -52,9 +52,9 @@ def run(ctx):
                   "linear/clamp<false>+consistency"):
             req.append(("%s<%s>" % (a, t), "n=1", 5))
             req.append(("%s<%s>" % (a, t), "n=2", 5))
-    ctx.run_events(bins["asan"], ctx.n(24000, 320000), require=req, timeout=3600)
+    ctx.run_events(bins["asan"], ctx.n(24000, 240000), require=req, timeout=3600)
     if ctx.thorough:
-        ctx.run_events(bins["O2"], 1200000, require=[], timeout=3600)
+        ctx.run_events(bins["O2"], 600000, require=[], timeout=3600)
     ctx.assumptions += [
         "the value one ulp beside a node is compared with the first-order expansion of the interpolant around the node "
         "(continuity = the limit equals the node value)",
